@@ -219,6 +219,8 @@ def _discard_path(ctx):
     n = core.adopt(ctx, c02, lambda o: (o["rule"] == "C02.c" and any(k in o["key"] for k in ("discard", "run-path-always-replays", "detached-queue", "replays-element", "drop-only-after-run")))
                    or (o["rule"] == "C02.a" and any(k in o["key"] for k in ("single-disposition", "dispositions=", "abort-only"))), "C05.d")
     ctx.floor("C05.d", n, 8, "shared abort / discard obligations (C02.a, C02.c)")
+    nd = core.adopt(ctx, c02, lambda o: o["rule"] == "C02.d" and "one-runner-call-per-path" in o["key"], "C05.d")
+    ctx.floor("C05.d", nd, 3, "shared one-runner-call-per-apply-path obligations (C02.d): a counted reader always reaches the runner")
     # a postponed run releases the payload it was scheduled for, not a later one: the event trackers hand pending entries
     # out in arrival order (shared with C03.e) - otherwise a payload is dropped while its own reader has yet to run
     import c03
